@@ -131,7 +131,9 @@ func (r *scenRun) call(kind string, ev Ev, yield bool, f func()) bool {
 	r.log.add(ev)
 	go func() {
 		gidCh <- curGID()
-		f()
+		if f != nil {
+			f()
+		}
 		close(done)
 	}()
 	gid := <-gidCh
@@ -786,7 +788,7 @@ func (r *scenRun) inject(inj *Inject, expected []*node) []*node {
 		}
 		return cands[inj.Sel%len(cands)]
 	}
-	var remotes, relays, stoppable []*node
+	var remotes, relays, poolRelays, stoppable []*node
 	for _, name := range r.names() {
 		n := r.node(name)
 		if n.dead || (n.parent != "top" && r.node(n.parent).dead) || (r.topDead && (n.remote || n.parent != "top")) {
@@ -794,6 +796,9 @@ func (r *scenRun) inject(inj *Inject, expected []*node) []*node {
 		}
 		if n.relay {
 			relays = append(relays, n)
+			if n.stopPool != nil {
+				poolRelays = append(poolRelays, n)
+			}
 			continue
 		}
 		if n.remote {
@@ -870,7 +875,10 @@ func (r *scenRun) inject(inj *Inject, expected []*node) []*node {
 			victim.px.stall(time.Duration(inj.StallMs) * time.Millisecond)
 		})
 	case "stop-pool":
-		if inj.PoolSel == 0 || len(relays) == 0 {
+		if (inj.PoolSel == 0 || len(poolRelays) == 0) && r.topDead {
+			return expected // every pool this scenario could stop is already stopped
+		}
+		if inj.PoolSel == 0 || len(poolRelays) == 0 {
 			r.mu.Lock()
 			r.topDead = true
 			r.mu.Unlock()
@@ -887,7 +895,7 @@ func (r *scenRun) inject(inj *Inject, expected []*node) []*node {
 				kickAccept(r.topAddr)
 			}
 		} else {
-			victim = relays[(inj.PoolSel-1)%len(relays)]
+			victim = poolRelays[(inj.PoolSel-1)%len(poolRelays)]
 			var keys []string
 			for _, n := range r.below(victim.name) {
 				if n.remote {
